@@ -12,7 +12,12 @@ Case (plain JSON)::
      "rename": {template name: new name}    applied to every string of ir / data that equals a template name,
      "cfg": {"zip": None|"stored"|"deflated", "zip2": same (second target of the split forms),
              "form": one of FORMS, "mask": int (which templates go where in split / choice forms),
-             "async": bool, "flags": [environment option flags, see FLAGS]}}
+             "async": bool, "flags": [environment option flags, see FLAGS],
+             "shared": bool   one ModuleLoader instance also serves a second environment (other undefined type / global
+                              values); both load every template before anything renders; both are compared with source
+             "rebuild": None | {"flags1": [...], "stale": bool}   sources live on disk (FileSystemLoader, fixed old mtimes);
+                              an earlier build with options flags1 (and, if stale, other sources) is compiled into the
+                              same target first, the real build then overwrites it}}
 
 Differential oracle.  The *source side* is an environment with a ``DictLoader`` of all (compilable)
 sources.  The *module side* is an environment with identical options whose loader is built from what
@@ -60,7 +65,9 @@ RULE = (
     "directory / two targets split by filter_func / ChoiceLoader before or after a source loader with a partial "
     "compile); sync and enable_async; environment options drawn from autoescape (bool / by-name callable), sandboxed, "
     "immutable sandbox, optimized=False, trim/lstrip blocks, finalize, cache_size=0, Debug/Chainable/Strict undefined, "
-    "i18n extension. Every template x 2 data assignments rendered on both sides. Non-trivial = during a render of a "
+    "i18n extension; in a fifth of the cases the same loader instance also serves a second environment with another "
+    "undefined type and other global values; in a fifth the target already holds an earlier build (other options and/or "
+    "other sources, file-backed sources with old timestamps). Every template x 2 data assignments rendered on both sides. Non-trivial = during a render of a "
     "precompiled template another template was loaded through the ModuleLoader (extends / include / import resolved "
     "between precompiled templates); distinct = distinct serialised case."
 )
@@ -78,6 +85,8 @@ FORMS = ("path", "pathlike", "list1", "list_empty_first", "split", "choice_mod_f
 FLAGS = ("autoescape", "autoescape_fn", "sandbox", "immutable", "unoptimized", "ws", "finalize", "nocache",
          "debug_undefined", "chainable_undefined", "strict_undefined", "i18n", "no_auto_reload")
 ZIPS = (None, "stored", "deflated")
+
+sys.dont_write_bytecode = True  # a .pyc next to a rebuilt module would be validated by mtime + size only
 
 WORK = os.path.join(core.VERIF, ".work")
 _counter = itertools.count()
@@ -315,6 +324,16 @@ def _compile(env, target, zip_mode, names, selected, broken):
     return log
 
 
+def _write_sources(srcdir, sources, mtime):
+    shutil.rmtree(srcdir, ignore_errors=True)
+    for name, text in sources.items():
+        path = os.path.join(srcdir, *name.split("/"))
+        os.makedirs(os.path.dirname(path), exist_ok=True)
+        with open(path, "w", encoding="utf-8") as f:
+            f.write(text)
+        os.utime(path, (mtime, mtime))
+
+
 def _purge_import_caches(work):
     import importlib
     import zipimport
@@ -385,7 +404,28 @@ def check_case(case):
     if broken:
         labels.append("broken_template")
     try:
-        compile_env = make_env(jinja2.DictLoader(dict(sources)), cfg, globs)
+        rebuild = cfg.get("rebuild")
+        if rebuild:
+            # sources on disk (FileSystemLoader reports real file names and mtimes); an EARLIER build -- other options and/or
+            # other sources -- is written into the same target first; the sources of the real build carry timestamps
+            # older than that earlier build's modules (restored backup / checkout / cp -p)
+            srcdir = os.path.join(work, "src")
+            labels.append("rebuild_stale_sources" if rebuild.get("stale") else "rebuild_other_options")
+            compile_env = make_env(jinja2.FileSystemLoader(srcdir), cfg, globs)
+            env1 = make_env(jinja2.FileSystemLoader(srcdir), dict(cfg, flags=rebuild["flags1"]), globs)
+            stale = {n: (src if n in broken else "OLD-BUILD " + src) for n, src in sources.items()} if rebuild.get("stale") else sources
+
+            def build(target, zm, selected):
+                _write_sources(srcdir, stale, 1000000000)
+                _compile(env1, target, zm, names, selected, broken)
+                _write_sources(srcdir, sources, 1100000000)
+                _compile(compile_env, target, zm, names, selected, broken)
+        else:
+            compile_env = make_env(jinja2.DictLoader(dict(sources)), cfg, globs)
+
+            def build(target, zm, selected):
+                _compile(compile_env, target, zm, names, selected, broken)
+
         ref_sources = {n: sources[n] for n in good}
         src_env = make_env(jinja2.DictLoader(dict(ref_sources)), cfg, globs)
         ML = _counting_loader_class(state)
@@ -394,20 +434,20 @@ def check_case(case):
         if form == "split":
             t2 = _target(work, 2, zip2)
             rest = [n for n in names if n not in subset]
-            _compile(compile_env, t1, zip_mode, names, subset, broken)
-            _compile(compile_env, t2, zip2, names, rest, broken)
+            build(t1, zip_mode, subset)
+            build(t2, zip2, rest)
             loader = ML([t1, pathlib.Path(t2)])
             labels.append("zip2_%s" % zip2)
         elif form == "choice_mod_first":
-            _compile(compile_env, t1, zip_mode, names, subset, broken)
+            build(t1, zip_mode, subset)
             precompiled = set(subset) - set(broken)
             loader = jinja2.ChoiceLoader([ML(t1), jinja2.DictLoader(dict(ref_sources))])
         elif form == "choice_src_first":
-            _compile(compile_env, t1, zip_mode, names, names, broken)
+            build(t1, zip_mode, names)
             precompiled = set(good) - set(subset)
             loader = jinja2.ChoiceLoader([jinja2.DictLoader({n: ref_sources[n] for n in subset if n in ref_sources}), ML([t1])])
         else:
-            _compile(compile_env, t1, zip_mode, names, names, broken)
+            build(t1, zip_mode, names)
             if form == "path":
                 loader = ML(t1)
             elif form == "pathlike":
@@ -420,9 +460,29 @@ def check_case(case):
                 loader = ML([empty, pathlib.Path(t1)])
         state.precompiled = precompiled
         mod_env = make_env(loader, cfg, globs, state)
+        pairs = [("", src_env, mod_env)]
+        if cfg.get("shared"):
+            # ONE loader instance serves a second environment that differs in render-time configuration only (undefined
+            # type, values of the globals); both load every template (B after A) before anything renders
+            labels.append("shared_loader")
+            flags_b = [f for f in cfg.get("flags") or () if not f.endswith("_undefined")]
+            if "debug_undefined" not in (cfg.get("flags") or ()):
+                flags_b.append("debug_undefined")
+            cfg_b = dict(cfg, flags=flags_b)
+            globs_b = {k: (v + "-B" if isinstance(v, str) else v) for k, v in globs.items()}
+            globs_b["zz_only_b"] = "B"
+            src_env_b = make_env(jinja2.DictLoader(dict(ref_sources)), cfg_b, globs_b)
+            mod_env_b = make_env(loader, cfg_b, globs_b, state)
+            for name in names:
+                for e in (mod_env, mod_env_b):
+                    try:
+                        e.get_template(name)
+                    except _allowed():
+                        pass
+            pairs.append((" (second environment on the same loader)", src_env_b, mod_env_b))
 
         nerr = 0
-        for name in names:
+        for name, (which, src_env, mod_env) in [(n, p) for n in names for p in pairs]:
             ds = datasets[group[name]]
             for di, data in enumerate(ds):
                 exp = observe(src_env, name, data, loop, di == 0)
@@ -432,8 +492,8 @@ def check_case(case):
                     labels.append("err_" + exp["err"])
                 if exp != got:
                     raise core.Violation(
-                        "template %r, data %r: source loading gives %r, ModuleLoader (%s, zip=%r, flags=%r, async=%r) gives %r\n  %s"
-                        % (name, data, exp, form, zip_mode, cfg.get("flags"), bool(cfg.get("async")), got,
+                        "template %r%s, data %r: source loading gives %r, ModuleLoader (%s, zip=%r, flags=%r, async=%r, rebuild=%r) gives %r\n  %s"
+                        % (name, which, data, exp, form, zip_mode, cfg.get("flags"), bool(cfg.get("async")), cfg.get("rebuild"), got,
                            "\n  ".join("%s: %s" % kv for kv in sorted(sources.items()))),
                         expected=exp, observed=got, sources=sources,
                     )
@@ -459,7 +519,8 @@ def check_case(case):
         finally:
             loop.close()
         # drop everything that keeps the loaders alive, then the import system's view of the scratch paths
-        compile_env = src_env = mod_env = loader = ML = None  # noqa: F841
+        compile_env = src_env = mod_env = loader = ML = env1 = build = pairs = None  # noqa: F841
+        src_env_b = mod_env_b = e = None  # noqa: F841
         state = None
         _purge_import_caches(work)
         shutil.rmtree(work, ignore_errors=True)
@@ -583,7 +644,17 @@ def _strategy(tier_sizes):
             "zip": draw(st.sampled_from(ZIPS)), "zip2": draw(st.sampled_from(ZIPS)), "form": form,
             "mask": draw(st.integers(0, 2 ** len(all_names) - 1)) if form in ("split", "choice_mod_first", "choice_src_first") else 0,
             "async": draw(st.integers(0, 2)) == 0, "flags": flags,
+            "shared": 40 <= draw(st.integers(0, 99)) < 62,  # (Hypothesis favours the ends of an integer range)
+            "rebuild": None,
         }
+        if 30 <= draw(st.integers(0, 99)) < 55:
+            toggled = draw(st.lists(st.sampled_from(["autoescape", "ws", "finalize", "unoptimized"]), min_size=1, max_size=2, unique=True))
+            stale = draw(st.booleans())
+            flags1 = [f for f in flags if f not in toggled] + [f for f in toggled if f not in flags]
+            case["cfg"]["rebuild"] = {"flags1": flags if (stale and draw(st.booleans())) else flags1, "stale": stale}
+            if draw(st.integers(0, 3)) > 0:
+                case["cfg"]["zip"] = None  # the interesting target for a rebuild is a directory
+                case["cfg"]["zip2"] = None
         return case
 
     return cases()
@@ -652,7 +723,7 @@ FLOORS = {
     "xref": 0.5, "zip_None": 0.15, "zip_stored": 0.15, "zip_deflated": 0.15, "async": 0.15, "kind_inherit": 0.15,
     "kind_modules": 0.15, "with_prog": 0.15, "with_raw": 0.3, "renamed": 0.1, "err_TemplateNotFound": 0.01,
     "form_split": 0.05, "form_choice_mod_first": 0.05, "form_choice_src_first": 0.05, "form_list_empty_first": 0.05,
-    "flag_sandbox": 0.02, "flag_autoescape": 0.02, "flag_i18n": 0.02, "broken_template": 0.005,
+    "shared_loader": 0.08, "rebuild_stale_sources": 0.04, "rebuild_other_options": 0.04, "flag_sandbox": 0.02, "flag_autoescape": 0.02, "flag_i18n": 0.02, "broken_template": 0.005,
 }
 
 
